@@ -90,12 +90,23 @@ fn ev_json(slot: usize, e: &Ev) -> String {
         K_RUNEND => "run-end",
         _ => "?",
     };
+    let what = match e.kind {
+        K_SPAWNER => ["before-spawn-decision", "after-lag", "before-final-spawn", "spawner-waits"]
+            .get(e.stage as usize)
+            .unwrap_or(&"?")
+            .to_string(),
+        K_RUNBEGIN => format!("max_threads={} chunk={}({})", e.a, e.b, if e.stage == 1 { "exact" } else { "min" }),
+        K_WBEGIN => format!("chunk={}", e.a),
+        K_WEND | K_RUNEND => String::new(),
+        K_PULL => "source.next()".to_string(),
+        _ => stage_name(e.stage),
+    };
     format!(
-        "{{\"seq\":{},\"thread\":{},\"kind\":\"{}\",\"stage\":{},\"a\":\"{:#x}\",\"b\":{}}}",
+        "{{\"seq\":{},\"thread\":{},\"kind\":\"{}\",\"what\":{},\"arg\":\"{:#x}\",\"aux\":{}}}",
         e.seq,
         slot,
         kind,
-        jstr(&stage_name(e.stage)),
+        jstr(&what),
         e.a,
         if e.b > (1 << 53) { 0 } else { e.b }
     )
